@@ -1496,4 +1496,119 @@ theorem null_greater_noerr (e : Sev) (h : NoErr (Sev.null.greater e)) (he : e = 
   · exact absurd h (by simp [NoErr, Sev.greater, Sev.toInt])
 
 
+theorem splitSign_append (t : List Byte) :
+    ∃ sg, IsSign sg ∧ t = sg ++ (splitSign t).2 ∧ (splitSign t).1 = (sg == [45]) := by
+  rcases splitSign_cases t with ⟨r, rfl, hs⟩ | ⟨r, rfl, hs⟩ | ⟨_, _, hs⟩
+  · exact ⟨[45], Or.inr (Or.inr rfl), by rw [hs]; rfl, by rw [hs]; rfl⟩
+  · exact ⟨[43], Or.inr (Or.inl rfl), by rw [hs]; rfl, by rw [hs]; rfl⟩
+  · exact ⟨[], Or.inl rfl, by rw [hs]; rfl, by rw [hs]; rfl⟩
+
+/-- S1: every token of the real grammar has the real shape -/
+theorem isReal_shape (t : List Byte) (h : isReal t = true) :
+    ∃ sg ip fp ex, t = realText sg ip fp 69 ex ∧ IsSign sg ∧ ip ≠ [] ∧ ip.all isDigit = true ∧ fp.all isDigit = true ∧ ExWF ex := by
+  obtain ⟨sg, hsg, ht, _⟩ := splitSign_append t
+  obtain ⟨ip, t2, htd⟩ : ∃ ip t2, takeDigits (splitSign t).2 = (ip, t2) := ⟨_, _, rfl⟩
+  have hip := takeDigits_spec (splitSign t).2
+  have happ := takeDigits_append (splitSign t).2
+  rw [htd] at hip happ
+  simp only at hip happ
+  unfold isReal at h
+  simp only [htd] at h
+  by_cases hie : ip.isEmpty = true
+  · simp [hie] at h
+  · have hie' : ip.isEmpty = false := by simpa using hie
+    simp only [hie', Bool.false_eq_true, if_false] at h
+    have hipne : ip ≠ [] := by intro e; rw [e] at hie'; simp at hie'
+    cases t2 with
+    | nil => simp at h
+    | cons c2 t3 =>
+      by_cases hc2 : c2 = 46
+      · subst hc2
+        simp only at h
+        obtain ⟨fp, t4, htd3⟩ : ∃ fp t4, takeDigits t3 = (fp, t4) := ⟨_, _, rfl⟩
+        have hfp := takeDigits_spec t3
+        have happ3 := takeDigits_append t3
+        rw [htd3] at hfp happ3
+        simp only [htd3] at h hfp happ3
+        cases t4 with
+        | nil =>
+          refine ⟨sg, ip, fp, none, ?_, hsg, hipne, hip.1, hfp.1, trivial⟩
+          rw [ht, ← happ, ← happ3]; simp [realText, exText]
+        | cons c4 t5 =>
+          by_cases hc4 : c4 = 69
+          · subst hc4
+            simp only [Bool.and_eq_true, Bool.not_eq_true', allDigits] at h
+            obtain ⟨esg, hesg, ht5, _⟩ := splitSign_append t5
+            refine ⟨sg, ip, fp, some (esg, (splitSign t5).2), ?_, hsg, hipne, hip.1, hfp.1, hesg, ?_, h.2⟩
+            · rw [ht, ← happ, ← happ3]
+              simp only [realText, exText, List.append_assoc, List.cons_append, List.nil_append]
+              rw [← ht5]
+            · intro e; rw [e] at h; simp at h
+          · exfalso
+            split at h
+            · rename_i heq; cases heq
+            · rename_i heq; simp at heq; exact hc4 heq.1
+            · cases h
+      · exfalso
+        split at h
+        · rename_i heq; simp at heq; exact hc2 heq.1
+        · cases h
+
+/-- what may follow a real token without being taken for a part of it -/
+def RealCont (cont : List Byte) : Prop :=
+  cont = [] ∨ ∃ c t, cont = c :: t ∧ isDigit c = false ∧ c ≠ 101 ∧ c ≠ 69
+
+theorem RealCont.noDigit {cont : List Byte} (h : RealCont cont) : NoDigitHead cont := by
+  rcases h with rfl | ⟨c, t, rfl, hc, _, _⟩
+  · exact Or.inl rfl
+  · exact Or.inr ⟨c, t, rfl, hc⟩
+
+theorem expPart_cont (cont : List Byte) (h : RealCont cont) : expPart cont = ([], cont, false, false) := by
+  rcases h with rfl | ⟨c, t, rfl, _, h1, h2⟩
+  · rfl
+  · have : (c == 101 || c == 69) = false := by simp [h1, h2]
+    simp [expPart, this]
+
+/-- S5: `ReadReal` collects exactly a token of the real shape, without a format complaint -/
+theorem realCollect_realText (sg ip fp : List Byte) (ex : Option (List Byte × List Byte)) (cont : List Byte)
+    (hsg : IsSign sg) (hip1 : ip ≠ []) (hip : ip.all isDigit = true) (hfp : fp.all isDigit = true) (hex : ExWF ex)
+    (hcont : RealCont cont) :
+    realCollect (realText sg ip fp 69 ex ++ cont) = (realText sg ip fp 69 ex, cont, Sev.null) := by
+  obtain ⟨d, u, rfl⟩ : ∃ d u, ip = d :: u := by
+    cases ip with
+    | nil => exact absurd rfl hip1
+    | cons d u => exact ⟨d, u, rfl⟩
+  have hd : isDigit d = true := by simp at hip; exact hip.1
+  have h1 : optSign (realText sg (d :: u) fp 69 ex ++ cont) = (sg, (d :: u) ++ 46 :: (fp ++ (exText 69 ex ++ cont))) := by
+    have : realText sg (d :: u) fp 69 ex ++ cont = sg ++ ((d :: u) ++ 46 :: (fp ++ (exText 69 ex ++ cont))) := by
+      simp [realText]
+    rw [this]
+    exact optSign_of_sign sg _ hsg (by simpa using digit_head_not_sign d _ hd)
+  have h2 : takeDigits ((d :: u) ++ 46 :: (fp ++ (exText 69 ex ++ cont))) = (d :: u, 46 :: (fp ++ (exText 69 ex ++ cont))) :=
+    takeDigits_run _ _ hip (dot_noDigit _)
+  have hnd : NoDigitHead (exText 69 ex ++ cont) := by
+    cases ex with
+    | none => simpa [exText] using hcont.noDigit
+    | some p => exact Or.inr ⟨69, p.1 ++ p.2 ++ cont, by simp [exText], by decide⟩
+  have h3 : takeDigits (fp ++ (exText 69 ex ++ cont)) = (fp, exText 69 ex ++ cont) := takeDigits_run _ _ hfp hnd
+  have h4 : expPart (exText 69 ex ++ cont) = (exText 69 ex, cont, false, false) := by
+    cases ex with
+    | none => simpa [exText] using expPart_cont cont hcont
+    | some p =>
+      obtain ⟨esg, ed⟩ := p
+      obtain ⟨hes, hed1, hed⟩ := hex
+      obtain ⟨e0, eu, rfl⟩ : ∃ e0 eu, ed = e0 :: eu := by
+        cases ed with
+        | nil => exact absurd rfl hed1
+        | cons e0 eu => exact ⟨e0, eu, rfl⟩
+      have he0 : isDigit e0 = true := by simp at hed; exact hed.1
+      have h5 : optSign (esg ++ ((e0 :: eu) ++ cont)) = (esg, (e0 :: eu) ++ cont) :=
+        optSign_of_sign esg _ hes (by simpa using digit_head_not_sign e0 _ he0)
+      have h6 : takeDigits ((e0 :: eu) ++ cont) = (e0 :: eu, cont) := takeDigits_run _ _ hed hcont.noDigit
+      simp only [List.cons_append] at h5 h6
+      simp [exText, expPart, realDigits, h5, h6]
+  simp only [realCollect, realDigits, h1, h2, optDot, h3, h4]
+  simp [realText]
+
+
 end StepModel.P21.Lemmas
